@@ -246,7 +246,8 @@ fn clients_scenario(k: usize, rounds: usize, policy: u8) -> Verdict {
                 return;
             }
             for j in 0..rounds {
-                let q = vec![format!("c{}r{}", c, j).into_bytes(), b"body".to_vec()];
+                // every other request ends with an empty frame
+                let q = if j % 2 == 1 { vec![format!("c{}r{}", c, j).into_bytes(), vec![]] } else { vec![format!("c{}r{}", c, j).into_bytes(), b"body".to_vec()] };
                 let r = s.send(msg(&q)).await;
                 if let Err(e) = &r {
                     viol2.borrow_mut().push(("clients/send-failed".into(), format!("client {} request {}: {}", c, j, e3::err_class(e))));
